@@ -264,6 +264,7 @@ struct LcSim : Harness {
     setup_model();
     ctx_open(kn);
     bool finished = false;
+    if (const char *df = getenv("LCSIM_ALLOC_DUMP")) { static int nrun = 0; char fn[300]; snprintf(fn, sizeof fn, "%s.%d", df, nrun++); if (A.dump) fclose(A.dump); A.dump = fopen(fn, "w"); }
     if (setjmp(err_jmp) == 0) {
       for (auto &op : plan.at("ops").a) {
         if (out.violation) break;
@@ -284,6 +285,7 @@ struct LcSim : Harness {
     user_ctx_alive = false;
     out.ticks = A.events + K.events + clock_ticks + nops_done;
     out.trace_hash = mix2(A.trace.h, mix2(K.policy == P_KERNEL ? 0 : K.trace.h, th.h));
+    if (getenv("LCSIM_ALLOC_DUMP")) fprintf(stderr, "trace parts: alloc %016llx code %016llx harness %016llx\n", (unsigned long long) A.trace.h, (unsigned long long) K.trace.h, (unsigned long long) th.h);
     rc.count("alloc_events", A.events); rc.count("code_alloc_events", K.events);
     rc.count("realloc_moved_live_block", A.n_realloc_live_moved); rc.count("code_multi_page_write_windows", K.multi_page_windows);
     if (out.violation) rc.count("violations");
@@ -392,7 +394,7 @@ struct LcSim : Harness {
     else if ((o == "out" || o == "outitem" || o == "write") && any_lazy_bb()) { /* the lazy basic-block generator keeps functions in generator form: their MIR can no longer be printed or written (outside every claimed statement) */ }
     else if (o == "out") { phase("MIR_output"); char *b = nullptr; size_t l = 0; FILE *f = open_memstream(&b, &l); MIR_output(ctx, f); fclose(f); th.u64(l); free(b); C->count("text_output"); }
     else if (o == "outitem") { std::string n = op.size() > 1 ? op[1].s : ""; Fn *f = find_fn(n); if (f && f->item) { phase("MIR_output_item", n); std::string t = item_text(ctx, f->item); th.u64(t.size()); C->count("item_output"); } }
-    else if (o == "write") { phase("MIR_write"); store.clear(); MIR_write_with_func(ctx, st_writer); th.u64(store.size()); C->count("binary_write"); }
+    else if (o == "write") { phase("MIR_write"); store.clear(); MIR_write_with_func(ctx, st_writer); th.u64(store.size()); if (getenv("LCSIM_ALLOC_DUMP")) { fprintf(stderr, "write size %zu\n", store.size()); static int nw = 0; char fn[64]; snprintf(fn, sizeof fn, "/tmp/wr.%d", nw++); FILE *wf = fopen(fn, "wb"); fwrite(store.data(), 1, store.size(), wf); fclose(wf); } C->count("binary_write"); }
   }
   // lazily generated code may call MIR_gen machinery later: never finish the generator while thunks still point at wrappers
   bool any_lazy_bb() { for (auto &m : mods) if (m.linked && m.iface == 4) return true; return false; }
@@ -593,7 +595,7 @@ struct LcSim : Harness {
       if (iface == 3 && f->addr_calls == 1) C->count("gen_lazy_on_first_call");
       if (iface == 4) f->lazybb_entered = true;
     }
-    th.u64((uint64_t) got);
+    th.u64((uint64_t) got); if (getenv("LCSIM_ALLOC_DUMP")) fprintf(stderr, "got %lld\n", (long long) got);
     bool late = false; for (auto &bl : bound_late) if (bl.first.first == f->mod) { auto b0 = bound.find(bl.first); if (b0 != bound.end() && b0->second.def != bl.second.def) late = true; }
     if (got != want && mods[f->mod].dc_resolver) { C->count("dont_care_observation_skipped"); return; }
     if (got != want && (mods[f->mod].ambiguous || late)) {
